@@ -1,5 +1,6 @@
 """U-addrs (C18): the validator address book."""
 from vx.unit import Unit
+from units import common
 
 F_VA = "node/components/network/src/gossip/validator_addrs.rs"
 F_DISC = "node/libs/roles/src/validator/messages/discovery.rs"
@@ -49,7 +50,7 @@ impl AddrMap {
         ensures r.is_some() == self@.contains_key(*k), r.is_some() ==> **r.unwrap() == self@[*k] { unimplemented!() }
     #[verifier::external_body]
     pub fn insert(&mut self, k: PublicKey, v: Arc<Signed<NetAddress>>) -> (r: Option<Arc<Signed<NetAddress>>>)
-        ensures final(self)@ == old(self)@.insert(k, *v) { unimplemented!() }
+        ensures final(self)@ == old(self)@.insert(k, *v), r.is_some() == old(self)@.contains_key(k), r matches Some(p) ==> *p == old(self)@[k] { unimplemented!() }
 }
 #[verifier::external_body] pub struct KeySet { _p: u8 }
 impl KeySet {
@@ -84,7 +85,7 @@ pub open spec fn applied(old_m: Map<PublicKey, Signed<NetAddress>>, new_m: Map<P
 def build(repo):
     U = Unit("addrs", ["C18"], desc="validator address book", uses="use std::sync::Arc;\nuse vstd::std_specs::cmp::*;")
     U.repo = repo
-    U.raw(PRELUDE, label="prelude addrs")
+    U.raw(common.STD_COMBINATORS + PRELUDE, label="prelude addrs")
     U.item(F_DISC, "struct NetAddress", subs=[("net::SocketAddr", "SocketAddr"), ("time::Utc", "Utc")])
     U.item(F_VA, "struct ValidatorAddrs",
            subs=[("im::HashMap<validator::PublicKey, Arc<validator::Signed<validator::NetAddress>>>", "AddrMap")])
@@ -92,7 +93,9 @@ def build(repo):
     U.fn(F_VA, "impl ValidatorAddrs :: fn update", wrap="impl ValidatorAddrs", ret="r",
          header_subs=[("validator::Schedule", "Schedule"), ("&[Arc<validator::Signed<validator::NetAddress>>]", "&[Arc<Signed<NetAddress>>]"),
                       ("anyhow::Result<bool>", "Result<bool, AnyhowError>")],
-         subs=[("HashSet::new()", "KeySet::new()   /* R-type */")],
+         subs=[("HashSet::new()", "KeySet::new()   /* R-type */"),
+               # R-op: `x |= e` on bools (Verus has no non-short-circuit OR): e is evaluated first, as in the original
+               ("changed |= $E;", "changed = { let verif_rhs: bool = $E; changed || verif_rhs };   /* R-op */", None)],
          post_subs=[("Ok(changed)", """proof {
             broadcast use utc_lt_irrefl;
             if changed {
